@@ -5,6 +5,17 @@ From LCC Require Import Model.Threaded.
 
 Definition cnt (l : list tid) (t : tid) : nat := count_occ Nat.eq_dec l t.
 
+(* what teardown_factory has torn down so far: a prefix of _objects whose length is fixed by its program counter *)
+Definition td_inv (d : tdpc) (tn objs : list obj) : Prop :=
+  match d with
+  | TdNotCalled | TdInit => tn = []
+  | TdFor i _ => tn = firstn i objs /\ i <= length objs
+  | TdTry i o _ | TdBody i o _ => tn = firstn i objs /\ nth_error objs i = Some o
+  | TdExcept i _ _ | TdIfNone i _ _ | TdAssign i _ => tn = firstn (S i) objs /\ S i <= length objs
+  | TdExceptBase _ _ | TdIfFinal _ | TdRaise _ | TdDone | TdRaised _ | TdAborted _ =>
+      exists i, tn = firstn i objs /\ i <= length objs
+  end.
+
 Record Inv (s : state) : Prop := {
   i_lt : forall t o, In (t, o) (created s) -> o < next s;
   i_nd_t : NoDup (map fst (created s));
@@ -21,13 +32,7 @@ Record Inv (s : state) : Prop := {
   i_acc : forall t o, In (t, Some o) (accesses s) -> In (t, o) (created s);
   i_calls : forall t, cnt (setup_calls s) t =
                       cnt (map fst (created s)) t + cnt (failed s) t + match pcs s t with InSetup => 1 | _ => 0 end;
-  i_td : match td s with
-         | TdNotCalled => torn s = []
-         | TdFor i => torn s = firstn i (objects s) /\ i <= length (objects s)
-         | TdBody i o => torn s = firstn i (objects s) /\ nth_error (objects s) i = Some o
-         | TdDone => exists i, torn s = firstn i (objects s) /\ i <= length (objects s)
-         | TdRaised => exists i, torn s = firstn i (objects s) /\ i <= length (objects s)
-         end
+  i_td : td_inv (td s) (torn s) (objects s)
 }.
 
 Lemma inv_init : Inv init.
@@ -54,6 +59,19 @@ Qed.
 
 Lemma nth_error_lt : forall A (l : list A) i x, nth_error l i = Some x -> i < length l.
 Proof. intros. apply nth_error_Some. rewrite H. discriminate. Qed.
+
+Lemma td_inv_snoc : forall d tn objs x, td_inv d tn objs -> td_inv d tn (objs ++ [x]).
+Proof.
+  intros d tn objs x H.
+  assert (K : forall i, tn = firstn i objs /\ i <= length objs -> tn = firstn i (objs ++ [x]) /\ i <= length (objs ++ [x])).
+  { intros i [E L]. rewrite app_length, firstn_snoc_keep by assumption. split; [assumption|simpl; lia]. }
+  destruct d; unfold td_inv in *; auto;
+    try (destruct H as [i' H]; exists i'; auto; fail).
+  - destruct H as [E L]. pose proof (nth_error_lt _ _ _ _ L). rewrite firstn_snoc_keep by lia.
+    split; [assumption|]. rewrite nth_error_app1 by assumption. assumption.
+  - destruct H as [E L]. pose proof (nth_error_lt _ _ _ _ L). rewrite firstn_snoc_keep by lia.
+    split; [assumption|]. rewrite nth_error_app1 by assumption. assumption.
+Qed.
 
 Lemma In_firstn : forall A (l : list A) i x, In x (firstn i l) -> In x l.
 Proof. induction l; destruct i; simpl; intros; try tauto. destruct H; eauto. Qed.
@@ -183,28 +201,31 @@ Proof.
     + rewrite in_app_iff in H. destruct H as [H|[H|[]]]; [byI I|]. subst. eauto.
     + rewrite in_app_iff in H. destruct H as [H|[H|[]]]; [byI I|]. subst. eauto.
     + apply NoDup_snoc; [apply I|assumption].
-    + pose proof (i_td _ I) as Htd. destruct (td s) as [|i|i o'| |]; auto.
-      * destruct Htd as [E L]. rewrite app_length, firstn_snoc_keep by assumption. split; [assumption|simpl; lia].
-      * destruct Htd as [E L]. pose proof (nth_error_lt _ _ _ _ L). rewrite firstn_snoc_keep by lia.
-        split; [assumption|]. rewrite nth_error_app1 by assumption. assumption.
-      * destruct Htd as [i [E L]]. exists i. rewrite app_length, firstn_snoc_keep by assumption. split; [assumption|simpl; lia].
-      * destruct Htd as [i [E L]]. exists i. rewrite app_length, firstn_snoc_keep by assumption. split; [assumption|simpl; lia].
+    + apply td_inv_snoc. apply I.
   - constructor; simpl; unfold in_flight; simpl; try apply I; try pcsplit I t Hpc.
 Qed.
 
 Lemma step_main_inv : forall c s, Inv s -> Inv (step_main c s).
 Proof.
-  intros c s I. unfold step_main. pose proof (i_td _ I) as Htd.
-  destruct (td s) as [|i|i o| |] eqn:Htds; try assumption.
+  intros c s I. unfold step_main. pose proof (i_td _ I) as Htd. unfold td_inv in Htd.
+  destruct (td s) as [| |i ff|i o ff|i o ff|i o ff|o ff|i o ff|i o|ff|e| |e|o] eqn:Htds; try assumption.
+  - constructor; simpl; try apply I. assumption.
   - constructor; simpl; try apply I. rewrite Htd. simpl. split; [reflexivity|lia].
   - destruct Htd as [E L]. destruct (nth_error (objects s) i) as [o|] eqn:Hn.
     + constructor; simpl; try apply I. auto.
     + constructor; simpl; try apply I. exists i. auto.
+  - constructor; simpl; try apply I. assumption.
   - destruct Htd as [E L].
     assert (E' : torn s ++ [o] = firstn (S i) (objects s)) by (rewrite E; symmetry; apply firstn_S_nth; assumption).
     pose proof (nth_error_lt _ _ _ _ L).
     constructor; simpl; try apply I.
-    destruct (td_fails c o); [exists (S i)|]; split; auto.
+    destruct (td_outcome c o); simpl; [|split; auto|exists (S i); split; auto]; split; auto.
+  - constructor; simpl; try apply I. assumption.
+  - constructor; simpl; try apply I. assumption.
+  - constructor; simpl; try apply I. destruct ff; simpl; assumption.
+  - constructor; simpl; try apply I. assumption.
+  - constructor; simpl; try apply I. destruct ff; simpl; assumption.
+  - constructor; simpl; try apply I. assumption.
 Qed.
 
 Lemma step_inv : forall c s a, Inv s -> Inv (step c s a).
@@ -318,23 +339,44 @@ Proof.
   intros. rewrite run_app. apply run_keeps_object; [apply run_inv|assumption].
 Qed.
 
+Lemma torn_prefix : forall s, Inv s -> exists i, torn s = firstn i (objects s).
+Proof.
+  intros s I. pose proof (i_td _ I) as Htd. unfold td_inv in Htd.
+  destruct (td s);
+    try (exists 0; rewrite Htd; reflexivity);
+    try (let E := fresh "E" in destruct Htd as [E _]; eauto; fail);
+    try (let i' := fresh "i'" in let E := fresh "E" in destruct Htd as [i' [E _]]; eauto; fail).
+Qed.
+
 Lemma never_twice : forall c sch,
   NoDup (torn (run c sch)) /\ forall o, In o (torn (run c sch)) -> exists t, In (t, o) (created (run c sch)).
 Proof.
-  intros c sch. pose proof (run_inv c sch) as I. pose proof (i_td _ I) as Htd.
-  assert (H : exists i, torn (run c sch) = firstn i (objects (run c sch))).
-  { destruct (td (run c sch)) as [|i|i o| |].
-    - exists 0. rewrite Htd. reflexivity.
-    - destruct Htd as [E _]; eauto.
-    - destruct Htd as [E _]; eauto.
-    - destruct Htd as [i [E _]]; eauto.
-    - destruct Htd as [i [E _]]; eauto. }
-  destruct H as [i E]. rewrite E. split.
+  intros c sch. pose proof (run_inv c sch) as I.
+  destruct (torn_prefix _ I) as [i E]. rewrite E. split.
   - apply NoDup_firstn. apply I.
   - intros o Ho. apply In_firstn in Ho. apply (i_objs_created _ I). assumption.
 Qed.
 
-Lemma teardown_complete : forall c sch, teardown_returns_after c sch ->
+(* ------------------------------------------------------------------ the end of the loop of teardown_factory *)
+Lemma step_thread_td : forall c t s, td (step_thread c t s) = td s /\ torn (step_thread c t s) = torn s.
+Proof.
+  intros. unfold step_thread. destruct (pcs s t); simpl; auto.
+  - destruct (locals s t); simpl; auto.
+  - destruct (setup_fails c t _); simpl; auto.
+Qed.
+
+Lemma step_main_objects : forall c s, objects (step_main c s) = objects s /\ pcs (step_main c s) = pcs s.
+Proof. intros. unfold step_main. destruct (td s); simpl; auto. destruct (nth_error _ _); auto. Qed.
+
+Lemma step_thread_objects : forall c t s, (forall o, pcs s t <> AtAppend o) -> objects (step_thread c t s) = objects s.
+Proof.
+  intros c t s H. unfold step_thread. destruct (pcs s t) eqn:E; simpl; auto.
+  - destruct (locals s t); simpl; auto.
+  - destruct (setup_fails c t _); simpl; auto.
+  - exfalso. eapply H. reflexivity.
+Qed.
+
+Lemma loop_end : forall c sch, teardown_loop_ends_after c sch ->
   torn (run c (sch ++ [Main])) = objects (run c (sch ++ [Main])) /\
   forall t o, In (t, o) (created (run c (sch ++ [Main]))) ->
               In o (torn (run c (sch ++ [Main]))) \/ in_flight (run c (sch ++ [Main])) t o.
@@ -342,69 +384,256 @@ Proof.
   intros c sch [Hnot Hdone].
   assert (Ht : torn (run c (sch ++ [Main])) = objects (run c (sch ++ [Main]))).
   { rewrite run_snoc in *. simpl in *. pose proof (run_inv c sch) as I. pose proof (i_td _ I) as Htd.
-    unfold step_main in *. destruct (td (run c sch)) as [|i|i o| |] eqn:Htds; simpl in *; try discriminate; try congruence.
+    unfold step_main in *. unfold td_inv in Htd.
+    destruct (td (run c sch)) as [| |i ff|i o ff|i o ff|i o ff|o ff|i o ff|i o|ff|e| |e|o] eqn:Htds;
+      simpl in *; try discriminate.
     - destruct (nth_error (objects (run c sch)) i) eqn:Hn; simpl in *; try discriminate.
       destruct Htd as [E L]. apply nth_error_None in Hn. rewrite E. apply firstn_all2. assumption.
-    - destruct (td_fails c o); discriminate. }
+    - destruct (td_outcome c o); discriminate.
+    - destruct ff; discriminate.
+    - rewrite Htds in Hdone. discriminate. }
   split; [assumption|]. intros t o Hc. rewrite Ht.
   destruct (i_objs1 _ (run_inv c (sch ++ [Main])) _ _ Hc); auto.
 Qed.
 
-Lemma teardown_exact : forall c sch, teardown_returns_after c sch ->
-  (forall t o, ~ in_flight (run c (sch ++ [Main])) t o) ->
-  NoDup (torn (run c (sch ++ [Main]))) /\
-  forall o, In o (torn (run c (sch ++ [Main]))) <-> exists t, In (t, o) (created (run c (sch ++ [Main]))).
+Lemma step_after_loop : forall c s a, after_loop (td s) = true ->
+  after_loop (td (step c s a)) = true /\ torn (step c s a) = torn s.
 Proof.
-  intros c sch Hr Hq. destruct (never_twice c (sch ++ [Main])) as [ND Hsub].
-  destruct (teardown_complete c sch Hr) as [_ Hall].
-  split; [assumption|]. intro o. split; [apply Hsub|].
-  intros [t Hc]. destruct (Hall _ _ Hc) as [H|H]; [assumption|]. exfalso. eapply Hq; eauto.
+  intros c s [t|] H; simpl.
+  - destruct (step_thread_td c t s) as [E1 E2]. rewrite E1, E2. auto.
+  - unfold step_main. destruct (td s) eqn:E; simpl in *; try discriminate; rewrite ?E; auto. destruct ff; simpl; auto.
 Qed.
 
-(* ------------------------------------------------------------------ teardown_factory terminates *)
+Lemma run_from_after_loop : forall c sch s, after_loop (td s) = true ->
+  after_loop (td (run_from c s sch)) = true /\ torn (run_from c s sch) = torn s.
+Proof.
+  unfold run_from. induction sch as [|a sch IH]; simpl; intros s H; [auto|].
+  destruct (step_after_loop c s a H) as [H1 H2]. destruct (IH _ H1) as [H3 H4]. split; [assumption|congruence].
+Qed.
+
+Lemma nothing_after_loop : forall c sch1 sch2, after_loop (td (run c sch1)) = true ->
+  torn (run c (sch1 ++ sch2)) = torn (run c sch1).
+Proof. intros. rewrite run_app. apply run_from_after_loop. assumption. Qed.
+
+Lemma firstn_prefix_snoc : forall A n (l : list A) a, exists m, firstn n l = firstn m (l ++ [a]).
+Proof.
+  intros A n l a. destruct (le_lt_dec n (length l)) as [L|L].
+  - exists n. rewrite firstn_app. replace (n - length l) with 0 by lia. simpl. symmetry. apply app_nil_r.
+  - exists (length l). rewrite firstn_all2 by lia. rewrite firstn_app, firstn_all, Nat.sub_diag. simpl. symmetry. apply app_nil_r.
+Qed.
+
+Lemma firstn_length_snoc : forall A (l : list A) a, firstn (length l) (l ++ [a]) = l.
+Proof. intros. rewrite firstn_app, firstn_all, Nat.sub_diag. simpl. apply app_nil_r. Qed.
+
+Lemma quiet_prefix : forall c l a, quiet_after_loop c (l ++ [a]) -> quiet_after_loop c l.
+Proof.
+  unfold quiet_after_loop. intros c l a H n t o. destruct (firstn_prefix_snoc _ n l a) as [m E]. rewrite E. apply H.
+Qed.
+
+(* when no thread is in flight from the end of the loop on, _objects does not grow any more: torn = _objects *)
+Lemma quiet_torn_objects : forall c sch, quiet_after_loop c sch -> after_loop (td (run c sch)) = true ->
+  torn (run c sch) = objects (run c sch).
+Proof.
+  intros c sch. induction sch as [|a l IH] using rev_ind; intros Hq Hal.
+  - vm_compute in Hal. discriminate.
+  - specialize (IH (quiet_prefix _ _ _ Hq)).
+    destruct (after_loop (td (run c l))) eqn:Hbefore.
+    + specialize (IH eq_refl).
+      assert (Hnf : forall t o, ~ in_flight (run c l) t o).
+      { intros t o. pose proof (Hq (length l) t o) as Hq'. rewrite firstn_length_snoc in Hq'. apply Hq'. assumption. }
+      rewrite run_snoc. destruct (step_after_loop c (run c l) a Hbefore) as [_ Et]. rewrite Et, IH.
+      destruct a as [t|]; simpl.
+      * symmetry. apply step_thread_objects. intros o Hp. apply (Hnf t o). right. assumption.
+      * symmetry. apply step_main_objects.
+    + destruct a as [t|].
+      * rewrite run_snoc in Hal. simpl in Hal. destruct (step_thread_td c t (run c l)) as [E _]. congruence.
+      * apply loop_end. split; assumption.
+Qed.
+
+Lemma finished_after_loop : forall d, td_finished d = true -> after_loop d = true.
+Proof. destruct d; simpl; congruence. Qed.
+
+Lemma teardown_exact_after_loop : forall c sch, after_loop (td (run c sch)) = true -> quiet_after_loop c sch ->
+  NoDup (torn (run c sch)) /\
+  forall o, In o (torn (run c sch)) <-> exists t, In (t, o) (created (run c sch)).
+Proof.
+  intros c sch Hal Hq. destruct (never_twice c sch) as [ND Hsub].
+  split; [assumption|]. intro o. split; [apply Hsub|].
+  intros [t Hc]. rewrite (quiet_torn_objects c sch Hq Hal).
+  destruct (i_objs1 _ (run_inv c sch) _ _ Hc) as [H|H]; [|assumption].
+  exfalso. pose proof (Hq (length sch) t o) as Hq'. rewrite firstn_all in Hq'. apply Hq'; assumption.
+Qed.
+
+Lemma teardown_exact : forall c sch, td_finished (td (run c sch)) = true -> quiet_after_loop c sch ->
+  NoDup (torn (run c sch)) /\
+  forall o, In o (torn (run c sch)) <-> exists t, In (t, o) (created (run c sch)).
+Proof. intros c sch H. apply teardown_exact_after_loop. apply finished_after_loop. assumption. Qed.
+
+(* ------------------------------------------------------------------ teardown_factory running alone (the framework's situation) *)
 Lemma run_from_app : forall c s a b, run_from c s (a ++ b) = run_from c (run_from c s a) b.
 Proof. intros. unfold run_from. apply fold_left_app. Qed.
 
-Lemma step_main_objects : forall c s, objects (step_main c s) = objects s.
-Proof. intros. unfold step_main. destruct (td s); simpl; try reflexivity. destruct (nth_error _ _); reflexivity. Qed.
-
-(* with no raising teardown_object, teardown_factory running alone finishes: from the for-line with index i it needs
-   2 * (number of remaining objects) + 1 steps *)
-Lemma main_alone_completes : forall c, (forall o, td_fails c o = false) ->
-  forall k s i, td s = TdFor i -> length (objects s) - i = k ->
-  td (run_from c s (repeat Main (2 * k + 1))) = TdDone.
+Lemma step_not_called_back : forall c s a, td (step c s a) = TdNotCalled -> td s = TdNotCalled.
 Proof.
-  intros c Hnf. induction k as [|k IH]; intros s i Ht Hk.
-  - simpl. unfold step_main. rewrite Ht. destruct (nth_error (objects s) i) eqn:E; [|reflexivity].
-    apply nth_error_lt in E. lia.
-  - replace (2 * S k + 1) with (2 + (2 * k + 1)) by lia. rewrite repeat_app, run_from_app.
-    assert (Hlt : i < length (objects s)) by lia.
-    destruct (nth_error (objects s) i) as [o|] eqn:E; [|apply nth_error_None in E; lia].
-    apply (IH _ (S i)).
-    + simpl. unfold step_main at 2. rewrite Ht, E. simpl. unfold step_main. simpl. rewrite Hnf. reflexivity.
-    + simpl. rewrite !step_main_objects. lia.
+  intros c s [t|]; simpl.
+  - destruct (step_thread_td c t s) as [E _]. congruence.
+  - unfold step_main. destruct (td s) eqn:E; simpl; try congruence.
+    + destruct (nth_error _ _); simpl; congruence.
+    + destruct (td_outcome c o); simpl; congruence.
+    + destruct ff; simpl; congruence.
+    + destruct ff; simpl; congruence.
 Qed.
 
-Lemma teardown_completes : forall c sch, (forall o, td_fails c o = false) -> td (run c sch) = TdNotCalled ->
-  exists k, teardown_returns_after c (sch ++ repeat Main k).
+Lemma not_called_back : forall c l s, td (run_from c s l) = TdNotCalled -> td s = TdNotCalled.
 Proof.
-  intros c sch Hnf Ht.
-  (* find the first k at which the state is TdDone: k = 2 * length objects + 2; the step before is not Done *)
+  unfold run_from. induction l as [|a l IH]; simpl; intros s H; [assumption|].
+  eapply step_not_called_back. apply IH. exact H.
+Qed.
+
+Lemma main_only_pcs : forall c l s, Forall (eq Main) l -> pcs (run_from c s l) = pcs s.
+Proof.
+  unfold run_from. induction l as [|a l IH]; simpl; intros s H; [reflexivity|].
+  inversion H; subst. rewrite IH by assumption. simpl. apply step_main_objects.
+Qed.
+
+Lemma quiet_alone : forall c sch k, td (run c sch) = TdNotCalled -> (forall t o, ~ in_flight (run c sch) t o) ->
+  quiet_after_loop c (sch ++ repeat Main k).
+Proof.
+  intros c sch k Hnc Hnf n t o Hal. rewrite firstn_app in *.
+  destruct (le_lt_dec n (length sch)) as [L|L].
+  - exfalso. replace (n - length sch) with 0 in Hal by lia. simpl in Hal. rewrite app_nil_r in Hal.
+    assert (E : td (run c (firstn n sch)) = TdNotCalled).
+    { apply (not_called_back c (skipn n sch)). rewrite <- run_app, firstn_skipn. assumption. }
+    rewrite E in Hal. discriminate.
+  - rewrite firstn_all2 by lia. rewrite run_app. unfold in_flight. rewrite main_only_pcs.
+    + apply Hnf.
+    + apply Forall_forall. intros x Hx. apply In_firstn in Hx. symmetry. eapply repeat_spec. exact Hx.
+Qed.
+
+Lemma teardown_exact_alone : forall c sch k, td (run c sch) = TdNotCalled -> (forall t o, ~ in_flight (run c sch) t o) ->
+  td_finished (td (run c (sch ++ repeat Main k))) = true ->
+  NoDup (torn (run c (sch ++ repeat Main k))) /\
+  forall o, In o (torn (run c (sch ++ repeat Main k))) <-> exists t, In (t, o) (created (run c (sch ++ repeat Main k))).
+Proof. intros c sch k Hnc Hnf Hfin. apply teardown_exact; [assumption|]. apply quiet_alone; assumption. Qed.
+
+(* ------------------------------------------------------------------ teardown_factory terminates *)
+(* upper bound of the number of lines teardown_factory still has to execute (at most 7 per remaining object) *)
+Definition mu (len : nat) (d : tdpc) : nat :=
+  match d with
+  | TdNotCalled => 7 * len + 5
+  | TdInit => 7 * len + 4
+  | TdFor i _ => 7 * (len - i) + 3
+  | TdTry i _ _ => 7 * (len - S i) + 9
+  | TdBody i _ _ => 7 * (len - S i) + 8
+  | TdExcept i _ _ => 7 * (len - S i) + 7
+  | TdIfNone i _ _ => 7 * (len - S i) + 6
+  | TdAssign i _ => 7 * (len - S i) + 5
+  | TdIfFinal _ => 2
+  | TdRaise _ => 1
+  | _ => 0
+  end.
+Definition td_live (d : tdpc) : bool := match d with TdExceptBase _ _ | TdAborted _ => false | _ => true end.
+
+Lemma main_step_decreases : forall c s, (forall o, td_outcome c o <> TdBaseExc) ->
+  td_live (td s) = true -> td_finished (td s) = false ->
+  mu (length (objects s)) (td (step_main c s)) < mu (length (objects s)) (td s) /\
+  td_live (td (step_main c s)) = true /\ objects (step_main c s) = objects s.
+Proof.
+  intros c s Hnb Hl Hf. split; [|split; [|apply step_main_objects]].
+  - unfold step_main. destruct (td s) as [| |i ff|i o ff|i o ff|i o ff|o ff|i o ff|i o|ff|e| |e|o] eqn:E;
+      simpl in *; try discriminate; try lia.
+    + destruct (nth_error (objects s) i) eqn:Hn; simpl; [|lia]. apply nth_error_lt in Hn. lia.
+    + destruct (td_outcome c o) eqn:Ho; simpl; try lia; exfalso; eapply Hnb; eauto.
+    + destruct ff; simpl; lia.
+    + destruct ff; simpl; lia.
+  - unfold step_main. destruct (td s) as [| |i ff|i o ff|i o ff|i o ff|o ff|i o ff|i o|ff|e| |e|o] eqn:E;
+      simpl in *; try discriminate; auto.
+    + destruct (nth_error (objects s) i); reflexivity.
+    + destruct (td_outcome c o) eqn:Ho; simpl; auto; exfalso; eapply Hnb; eauto.
+    + destruct ff; reflexivity.
+    + destruct ff; reflexivity.
+Qed.
+
+Lemma main_alone_finishes : forall c, (forall o, td_outcome c o <> TdBaseExc) ->
+  forall n s, td_live (td s) = true -> mu (length (objects s)) (td s) <= n ->
+  exists k, td_finished (td (run_from c s (repeat Main k))) = true.
+Proof.
+  intros c Hnb. induction n as [|n IH]; intros s Hl Hm.
+  - destruct (td_finished (td s)) eqn:Hf; [exists 0; assumption|].
+    destruct (main_step_decreases c s Hnb Hl Hf) as [Hd _]. lia.
+  - destruct (td_finished (td s)) eqn:Hf; [exists 0; assumption|].
+    destruct (main_step_decreases c s Hnb Hl Hf) as [Hd [Hl' Ho]].
+    destruct (IH (step_main c s) Hl') as [k Hk]; [rewrite Ho; lia|].
+    exists (S k). exact Hk.
+Qed.
+
+Lemma teardown_completes : forall c sch, (forall o, td_outcome c o <> TdBaseExc) -> td (run c sch) = TdNotCalled ->
+  exists k, teardown_finishes_after c (sch ++ repeat Main k).
+Proof.
+  intros c sch Hnb Ht.
   set (s0 := run c sch). assert (Ht' : td s0 = TdNotCalled) by exact Ht.
-  assert (H1 : td (step c s0 Main) = TdFor 0) by (simpl; unfold step_main; rewrite Ht'; reflexivity).
-  assert (Hdone : td (run_from c s0 (repeat Main (1 + (2 * length (objects s0) + 1)))) = TdDone).
-  { rewrite repeat_app, run_from_app. simpl repeat. apply (main_alone_completes c Hnf _ _ 0).
-    - exact H1.
-    - simpl. rewrite step_main_objects. lia. }
-  (* smallest prefix reaching Done *)
-  assert (Hex : forall n, td (run_from c s0 (repeat Main n)) = TdDone ->
-                exists k, td (run_from c s0 (repeat Main k)) <> TdDone /\ td (run_from c s0 (repeat Main (S k))) = TdDone).
-  { induction n as [|n IH]; intro Hn.
-    - simpl in Hn. congruence.
-    - destruct (td (run_from c s0 (repeat Main n))) eqn:E; try (exists n; split; [congruence|assumption]).
-      apply IH. reflexivity. }
-  destruct (Hex _ Hdone) as [k [Hk1 Hk2]]. exists k. unfold teardown_returns_after. unfold run in *.
+  destruct (main_alone_finishes c Hnb (mu (length (objects s0)) (td s0)) s0) as [n Hdone]; [rewrite Ht'; reflexivity|apply le_n|].
+  (* smallest prefix reaching a finished state *)
+  assert (Hex : forall n, td_finished (td (run_from c s0 (repeat Main n))) = true ->
+                exists k, td_finished (td (run_from c s0 (repeat Main k))) = false /\
+                          td_finished (td (run_from c s0 (repeat Main (S k)))) = true).
+  { clear n Hdone. induction n as [|n IH]; intro Hn.
+    - simpl in Hn. rewrite Ht' in Hn. discriminate.
+    - destruct (td_finished (td (run_from c s0 (repeat Main n)))) eqn:E; [apply IH; reflexivity|].
+      exists n; split; assumption. }
+  destruct (Hex _ Hdone) as [k [Hk1 Hk2]]. exists k. unfold teardown_finishes_after. unfold run in *.
   rewrite <- app_assoc. rewrite !run_from_app. fold (run c sch). fold s0. split; [assumption|].
   assert (Hr : repeat Main (S k) = repeat Main k ++ [Main]) by (clear; induction k; simpl; [reflexivity|]; f_equal; assumption).
   rewrite Hr, run_from_app in Hk2. exact Hk2.
+Qed.
+
+(* ------------------------------------------------------------------ what teardown_factory raises: the first failure *)
+Definition ff_inv (c : cfg) (d : tdpc) (tn : list obj) : Prop :=
+  match d with
+  | TdNotCalled | TdInit => tn = []
+  | TdFor _ ff | TdTry _ _ ff | TdBody _ _ ff | TdIfFinal ff => find (td_fails c) tn = ff
+  | TdExcept _ o ff | TdIfNone _ o ff => exists l, tn = l ++ [o] /\ find (td_fails c) l = ff /\ td_fails c o = true
+  | TdAssign _ o => exists l, tn = l ++ [o] /\ find (td_fails c) l = None /\ td_fails c o = true
+  | TdRaise e | TdRaised e => find (td_fails c) tn = Some e
+  | TdDone => find (td_fails c) tn = None
+  | TdExceptBase _ _ | TdAborted _ => True
+  end.
+
+Lemma find_snoc : forall A (f : A -> bool) l x,
+  find f (l ++ [x]) = match find f l with Some y => Some y | None => if f x then Some x else None end.
+Proof. induction l as [|a l IH]; simpl; intro x; [reflexivity|]. destruct (f a); [reflexivity|apply IH]. Qed.
+
+Lemma step_ff_inv : forall c s a, ff_inv c (td s) (torn s) -> ff_inv c (td (step c s a)) (torn (step c s a)).
+Proof.
+  intros c s [t|] H; simpl.
+  - destruct (step_thread_td c t s) as [E1 E2]. rewrite E1, E2. assumption.
+  - unfold step_main. destruct (td s) as [| |i ff|i o ff|i o ff|i o ff|o ff|i o ff|i o|ff|e| |e|o] eqn:E;
+      simpl in *; auto.
+    + rewrite H. reflexivity.
+    + destruct (nth_error (objects s) i); simpl; assumption.
+    + destruct (td_outcome c o) eqn:Ho; simpl; auto.
+      * rewrite find_snoc, H. unfold td_fails. rewrite Ho. destruct ff; reflexivity.
+      * exists (torn s). unfold td_fails at 2. rewrite Ho. auto.
+    + destruct H as [l [E1 [E2 E3]]]. destruct ff as [e|]; simpl.
+      * rewrite E1, find_snoc, E2. reflexivity.
+      * exists l. auto.
+    + destruct H as [l [E1 [E2 E3]]]. rewrite E1, find_snoc, E2, E3. reflexivity.
+    + destruct ff; simpl; assumption.
+    + rewrite E. assumption.
+    + rewrite E. assumption.
+    + rewrite E. exact I.
+Qed.
+
+Lemma run_ff_inv : forall c sch, ff_inv c (td (run c sch)) (torn (run c sch)).
+Proof.
+  intros c sch. induction sch as [|a l IH] using rev_ind; [reflexivity|]. rewrite run_snoc. apply step_ff_inv. assumption.
+Qed.
+
+Lemma first_failure : forall c sch,
+  (td (run c sch) = TdDone -> find (td_fails c) (torn (run c sch)) = None) /\
+  (forall e, td (run c sch) = TdRaised e -> find (td_fails c) (torn (run c sch)) = Some e).
+Proof.
+  intros c sch. pose proof (run_ff_inv c sch) as H. split.
+  - intro E. rewrite E in H. exact H.
+  - intros e E. rewrite E in H. exact H.
 Qed.
